@@ -60,6 +60,8 @@ impl Type {
             (Self::Int, Self::Bit) | (Self::Bit, Self::Int) => true,
             // 指定されたビット幅でIntを表現できない場合はエラーを出す必要がある
             (Self::Int, Self::Bits(_)) | (Self::Bits(_), Self::Int) => true,
+            // a bit is a bits<1> and the other way round
+            (Self::Bit, Self::Bits(1)) | (Self::Bits(1), Self::Bit) => true,
             (Self::String, Self::Code) | (Self::Code, Self::String) => true,
             (Self::List(self_elm_typ), Self::List(other_elm_typ)) => {
                 self_elm_typ.can_be_casted_to(symbol_map, other_elm_typ)
